@@ -17,12 +17,20 @@ def check_C08(tier, seed):
         "C08", tier, seed, "store", ["c08_history"],
         trusted=STORE_TRUSTED,
         assumptions=["clean restarts only (the database is at rest when it is dropped): crashes are C09",
-                     "table names of generated histories are file-system safe (naming is C15)"],
+                     "the directory a table name maps to is computed by the harness from the documented rule "
+                     "(lower-case, [a-z0-9_.-], no leading '-'/'.', 189 bytes, '-<stem>-<sha256 of the name>' when that "
+                     "changed the name), not by the crate; the rule itself is C15's",
+                     "the race class lines three client threads up with the sync points of the `verif` feature "
+                     "(ingest:begin, ingest:wal_locked, wal_flush:begin); the model stays sequential: the hook events "
+                     "give the order in which the ingestions and the freeze took effect"],
         rule="seeded histories of 3..12 operations over {ingest into 1..3 tables, burst of ingests, force_flush, "
              "evict_cache, restart} on an on-disk database, every lifetime in its own process; classes: dense "
              "(no background flush), dense-bgflush (max_wal_files in {0,1,2} / max_wal_size_bytes in {1,300,700}), "
-             "dense-recompact (partition_combine_factor 0 only); factors {0,1,4,999} in every class, integer columns "
-             "of 8/16/32-bit width, io_threads and "
+             "dense-recompact (partition_combine_factor 0 only), odd-table-names (three names with one stem after "
+             "sanitising: case pairs, '/', ' ', leading '-' / '.', non-ASCII, > 189 bytes; factors 4/999), "
+             "ingest-flush-race (a forced flush starts while one ingestion owns the ingestion lock and a second one "
+             "may be queued; a case counts only if the line-up was observed); factors {0,1,4,999} in the other "
+             "classes, integer columns of 8/16/32-bit width, io_threads and "
              "wal_flush_compaction_threads in {1,4}, max_partition_size_bytes in {1,40,8Mi}; a case is non-trivial "
              "when it contains a flush or a restart; after every step the model must predict table content, both "
              "catalogue listings, partition layout, buffer lengths, column-name sets, durable catalogue entries, "
@@ -41,12 +49,14 @@ def check_C18(tier, seed):
     return standard_check(
         "C18", tier, seed, "store", ["c18_history"],
         trusted=STORE_TRUSTED,
-        assumptions=["no crash between the effects of a flush (C09)", "table names are file-system safe (C15)",
+        assumptions=["no crash between the effects of a flush (C09)",
+                     "table directories are computed by the harness from the documented sanitising rule (C15)",
                      "liveness of the background trigger is fairness-conditional: the model says the trigger condition "
                      "holds whenever ingestion is blocked; that the blocked call then returns is observed by the harness "
                      "under a deadline"],
         rule=HIST_RULE + "classes: cycles (ingest/flush cycles), cycles-bgflush (max_wal_files in {0,1,2}, "
-             "max_wal_size_bytes in {1,300,700}: ingestion blocks until the background flush ran); oracle without model: "
+             "max_wal_size_bytes in {1,300,700}: ingestion blocks until the background flush ran), odd-table-names (table "
+             "names the storage layer sanitises, three with one stem); oracle without model: "
              "after every step the directory holds exactly the catalogue file, the partition files the durable catalogue "
              "names and the log segments from the cursor on; after a completed flush no segment and wal_size = 0")
 
@@ -97,14 +107,14 @@ def check_C13(tier, seed):
     return standard_check(
         "C13", tier, seed, "store", ["c13_history"],
         trusted=STORE_TRUSTED,
-        assumptions=["table names are file-system safe (C15); column names: ASCII, names differing only in case, non-ASCII, "
+        assumptions=["table directories are computed by the harness from the documented sanitising rule (C15); column names: ASCII, names differing only in case, non-ASCII, "
                      "70 bytes long, sorting before / after all others, _meta_-like",
                      "the hash-map order of the tables inside one event buffer is fixed to: client tables, _meta_tables, "
                      "_meta_columns_* (the model's and the theorems' order)"],
         rule=HIST_RULE + "classes: vary-within (every batch its own column subset, factor 999), vary-within-bgflush, "
              "vary-across (column sets change at partition boundaries, factors 1/4), vary-across-recompact (factor 0; F1 once "
-             "a merged partition has a partially-NULL column), long-compressible-names (F28), the witness of the fixed F3; "
-             "oracle "
+             "a merged partition has a partially-NULL column), long-compressible-names (F28), odd-table-names (table names the storage layer sanitises, three with "
+             "one stem), the witness of the fixed F3; oracle "
              "without model: SELECT column_name FROM _meta_columns_<t> = the set of names ever sent to t, each once; "
              "SELECT name FROM _meta_tables = tables and their catalogue tables, each once; SELECT * has the sorted "
              "catalogue as columns and the acknowledged cells (NULL where a batch did not carry the column)")
@@ -195,8 +205,12 @@ CLAIMED = {
              "over {ingest, flush, evict, restart}: rows of the partitions the durable catalogue lists ++ rows of the log "
              "segments at or above the durable cursor = acknowledged log, segment ids form [earliest, next), and a restart "
              "yields exactly the acknowledged log (for client tables: exactly the rows sent, in order, once); the "
-             "non-contiguity assertion, missing-file and missing-segment panics are unreachable. The model is tied to the "
-             "code by a history differential on a real on-disk database (content, catalogue, layout, directory, cursor).",
+             "non-contiguity assertion, missing-file and missing-segment panics are unreachable; the flush of the model "
+             "records the segment range in the step that freezes the buffers, and a flush that takes the end of the range "
+             "from before an ingestion it then freezes is proved to serve rows twice after a restart "
+             "(C08_stale_range_duplicates). The model is tied to the code by a history differential on a real on-disk "
+             "database (content, catalogue, layout, directory, cursor), including table names the storage layer has to "
+             "sanitise and steps in which two clients and a flush meet at the ingestion lock.",
         note="Proved for the guarded run, which stops at the compaction site of the open finding F1 (null map lost) "
              "instead of executing it. Trusted: Coq kernel, extraction, glue, hooks; "
              "crash behaviour is C09.",
